@@ -112,6 +112,12 @@ fn real_main() -> i32 {
                 let (mm, jj, _, _, _) = check::run_scenario(&world, prop, &sc);
                 if !mm.is_empty() {
                     nm += 1;
+                    println!("MISMATCHING [{}] {}", g, mm[0].chars().take(400).collect::<String>());
+                    if std::env::var("KH_SHOW").is_ok() {
+                        for l in &sc {
+                            println!("    {}", l.chars().take(200).collect::<String>());
+                        }
+                    }
                 }
                 by.entry(g.clone()).or_insert(0);
                 if !jj.is_empty() {
